@@ -15,4 +15,25 @@ CHECKS = {
         "text": "Generated positive dimensions/resistivities/temperatures over 8 decades are compared with the closed form evaluated in exact rational arithmetic (1e-12 relative) and with the scaling, symmetry, affine-in-temperature and trace==plane relations of the statement. Exploration is the right level: the functions are two closed-form expressions, a formula slip (unit factor, wrong reference temperature, one width only) shows on essentially every input.",
         "note": "Trusts Python's Fraction arithmetic; temperature factors within 0.05 of zero are excluded (relative error undefined by cancellation).",
     },
+    "C01": {
+        "level": "exploration",
+        "ref": "DESIGN.md section 2, C01; section 1.2 (reference model)",
+        "technique": "property-based testing: generated power trees vs independent reference transfer laws (row checker) + supply-mirroring metamorphic relation (Hypothesis)",
+        "text": "Generated trees of all 11 kinds (constants and 1-D/2-D tables, both polarities, PMux, 1-3 sources) are solved by the real code; every returned row is compared with its neighbours (Vin = feeder's Vout, Iout = sum of children's Iin) and with an independently written transfer law evaluated at the reported (Vin, Iout), within the residual the solver's own convergence test allows; negating all sources must mirror passive chains and change nothing else. Exploration is the honest level: the property quantifies over an unbounded family of trees and real-valued parameters.",
+        "note": "Trusted base: vlib/refmodel.py (laws transcribed from docstrings/property text), tolerance 3*(1e-8+tol*|x|), either triangulation accepted inside a 2-D table cell. Known finding F1 (negative source with rs>0) is excluded by construction and re-demonstrated by a probe.",
+    },
+    "C02": {
+        "level": "exploration",
+        "ref": "DESIGN.md section 2, C02",
+        "technique": "property-based testing: algebraic conservation identities recomputed from the reported table (Hypothesis)",
+        "text": "On generated solvable systems (with thermal resistances, ambient temperatures, loss-flagged loads, zero-volt sources and load phases) every row must satisfy P-L=|Vout|*Iout, 0<=L<=P, Eff=100(P-L)/P, loads carry consumption as Power xor Loss, the system balance sum(source P)=sum(load P)+sum(L), rise=rt*dissipation and peak=ambient+rise, per phase. The identities are recomputed from cells and spec parameters, not from the code's formulas.",
+        "note": "Interpretation I1: a load is heated by what it consumes even when not counted as loss. Identities through the convergence residual use 2e-5 relative. F1 excluded by construction.",
+    },
+    "C03": {
+        "level": "exploration",
+        "ref": "DESIGN.md section 2, C03",
+        "technique": "property-based testing: outcome classification, one-more-evaluation residual check, physicality predicate, sweep counting, differential against an independent reference steady-state solver (Hypothesis)",
+        "text": "Overloaded and modest systems are solved with drawn vtol/itol/maxiter. The outcome must be a table, RuntimeError or ValueError; a table must be finite, reproduce under one more evaluation of every law at the requested tolerance, show no inverted/amplified passive series element, and must not have been first met after sweep maxiter (sweeps counted by wrapping the propagation routine). When my reference solver finds a steady state with all series drops <= 10 %, solve() with defaults must return it. The 'finds' clause is liveness-flavoured and only sampled.",
+        "note": "Trusted base: reference solver in vlib/refmodel.py as existence witness. Known findings F1, F8 (Rectifier rs list -> TypeError), F17 (mux start-up transient trips a polarity guard) are excluded by construction and probed.",
+    },
 }
